@@ -521,7 +521,9 @@ func (s *stickyBalanceStrategy) performReassignments(reassignablePartitions []to
 			}
 
 			if _, exists := prevAssignment[partition]; exists {
-				if len(currentAssignment[consumer]) > (len(currentAssignment[prevAssignment[partition].MemberID]) + 1) {
+				// the previous owner gets the partition back only if it (still) subscribes to the topic
+				if memberAssignmentsIncludeTopicPartition(consumer2AllPotentialPartitions[prevAssignment[partition].MemberID], partition) &&
+					len(currentAssignment[consumer]) > (len(currentAssignment[prevAssignment[partition].MemberID])+1) {
 					sortedCurrentSubscriptions = s.reassignPartition(partition, currentAssignment, sortedCurrentSubscriptions, currentPartitionConsumer, prevAssignment[partition].MemberID)
 					reassignmentPerformed = true
 					modified = true
